@@ -42,19 +42,19 @@ P = {
          "Every entry point x every argument class of DESIGN Appendix B is executed on the real library; TLC decides the refusal class from the Libec model and checks that nothing stays allocated; crashes are Fault events.",
          "TLC; ASan/UBSan and the ledger as monitors; only the class rc < 0 is demanded, not the code."),
  "C14": (MC, "5/C14", "TLC model checking of the registry (descriptor allocation with wrap, complete state graph) + replay of every transition into the real library + TLC trace validation with MaxInt = INT_MAX",
-         "The allocation rule is transcribed with two's-complement wrap; the tiny counter range makes every wrap/collision configuration reachable in the model; the real registry is driven into the same configurations by presetting next_backend_desc and every event is validated exactly (descriptor value, counter, projection, GF-table presence).",
-         "TLC; the projection uses the exported lookup and the exported counter."),
+         "The allocation rule is transcribed with two's-complement wrap; the tiny counter range makes every wrap/collision configuration reachable in the model; the real registry is driven into the same configurations by presetting next_backend_desc; every event is validated (positive, distinct from the live ones, dead after destroy, failed create leaves nothing, registry projection, isolation round trips; the exact number and the GF-table timing are reported as model drift only). The wrap and collision histories also run on a gcc -O2 build with the hooks compiled out (production configuration), and the same histories are executed from three threads in strict alternation.",
+         "TLC; the projection uses the exported lookup and, when present, the exported counter (looked up by name)."),
  "C16": (MC, "5/C16", "TLC model checking of the ownership model + TLC trace validation of the relative ledger rules R1-R6 on replayed behaviours and random histories",
          "Leaks, double frees and frees of caller memory are made observable by an allocation ledger compiled into the library build and by ASan; the specification states which call owes what.",
          "TLC; allocation ledger (-D redirected allocator); ASan."),
- "C17": ("fault_enumeration", "5/C17", "fault enumeration over (backend, operation, n-th call, variant) with TLC trace validation of every run against Libec + ledger rules",
+ "C17": ("fault_enumeration", "5/C17", "fault enumeration over (backend, operation, n-th call, variant) and replay of every failing-operation transition of the TLC-checked API model (MC_Libec WithFaults, property FaultIsError), with TLC trace validation of every run against Libec + ledger rules",
          "Each backend operation is made to fail at each position of a scripted workload; the recorded history must satisfy: error returned, delta 0, nothing owed, registry unchanged, continuation succeeds.",
          "TLC; failing stubs installed through the backend's exported operation table; reference ISA-L plug-in's inversion-failure knob."),
  "C15": (MC, "5/C15", "TLC trace validation of decode/reconstruct/metadata/validation/encode runs whose inputs sit on read-only pages ending at a guard page, and of encode digests across histories (TracePure)",
          "Stray writes and over-reads become Fault events through page protection; history independence is a TLC state variable seen[(configuration,data)] compared over a fresh process, random API histories, other live instances, injected failures and a second thread.",
          "TLC; mprotect/PROT_NONE as the monitor for stray accesses; FNV digest of all fragment bytes (full bytes are compared in C07 for small inputs)."),
  "C18": (MC, "5/C18", "TLC model checking of all interleavings of the registry/GF-table protocol (NoRace, NoBad, UniqueDesc) + replay of TLC-generated schedules on real threads through guarded yield hooks + TLC validation of lock-annotated traces + ThreadSanitizer stress",
-         "The protocol model is explored exhaustively; every transition of its state graph yields a schedule that is replayed step by step on real threads parked at the yield points, and every recorded schedule (controlled and free-running) must be a behaviour of the model with exactly the locks really held; TSan observes what lies below the yield granularity.",
+         "The protocol model is explored exhaustively; every transition of its state graph yields a schedule that is replayed step by step on real threads parked at the yield points, and in every recorded schedule (controlled and free-running) each hooked step must be performed with the lock that protects what it touches and no two live instances may share a descriptor (judged per event); where the code no longer has the model's step structure that is reported as drift, not as a violation; TSan observes what lies below the yield granularity (own instances of six shapes, shared descriptors, random tolerated erasure sets).",
          "TLC; yield hooks guarded by LIBERASURECODE_VERIF; lock wrappers by -D redirection; ThreadSanitizer/ASan."),
  "C19": (MC, "5/C19", "TLC model checking of the transcribed ISA-L adapter row synthesis for both generators + TLC trace validation of decode/reconstruct/fragments-needed runs over a clean-room reference plug-in, with GF(2^8) invertibility decided per event",
          "Exactness for invertible survivor sets is an invariant of the transcription; refusals of the real adapter are accepted only where TLC finds the survivor matrix singular; the reference plug-in is itself compared byte for byte with IsaL.tla.",
